@@ -229,8 +229,10 @@ def oracle_c07(c):
         eff[("RED1", "RED", "SUMINISTRO", "A")] = user["red1"]
     if "red2" in user:
         eff[("RED2", "RED", "SUMINISTRO", "A")] = user["red2"]
-    unusable = ("ELECTRICIDAD", "RED", "SUMINISTRO", "A") not in eff or any(
-        (cr, "RED", "SUMINISTRO", "A") not in eff and cr not in ("EAMBIENTE", "TERMOSOLAR") for cr in carriers | {k[0] for k in eff})
+    # a set is unusable when a carrier it mentions has no grid supply factor (a set that says nothing about
+    # electricity is usable: fix 1505fba)
+    has_el = "ELECTRICIDAD" in (carriers | {k[0] for k in eff})
+    unusable = any((cr, "RED", "SUMINISTRO", "A") not in eff and cr not in ("EAMBIENTE", "TERMOSOLAR") for cr in carriers | {k[0] for k in eff})
     if "ok" not in r:
         if r.get("err") == "MissingFactor" and unusable:
             return bad
@@ -247,9 +249,15 @@ def oracle_c07(c):
         if lp.get(k) != v:
             bad.append(("a supplied factor was changed or removed", {"key": k, "supplied": str(v), "prepared": str(lp.get(k))}))
     for k in FORCED:
+        if k[0] == "ELECTRICIDAD" and not has_el:
+            if any(kk[0] == "ELECTRICIDAD" for kk in lp):
+                bad.append(("electricity factors were added to a set that says nothing about electricity", {"key": k}))
+            continue
         if lp.get(k) != ONE:
             bad.append(("factor fixed by the method is not (1,0,0)", {"key": k, "prepared": str(lp.get(k))}))
     for cr in ("ELECTRICIDAD", "EAMBIENTE", "TERMOSOLAR"):
+        if cr == "ELECTRICIDAD" and not has_el:
+            continue
         for dest in ("A_RED", "A_NEPB"):
             ka = (cr, "INSITU", dest, "A")
             kb = (cr, "INSITU", dest, "B")
